@@ -5,5 +5,6 @@ cd /repo && git status --short | grep -q . && { echo "/repo not clean"; exit 2; 
 git apply "$PATCH" || { echo "patch does not apply"; exit 3; }
 cd /verif
 export VERIF_EVIDENCE_DIR=/verif/target/evidence-scratch
-for c in "$@"; do ./check $c --tier quick 2>&1 | grep -E "^\[|VIOLATION|KNOWN|SPEC-FAIL|DISAGREE" | cut -c1-260 | head -8; done
+# (the summary and the VIOLATION lines first: a long list of SPEC-FAIL / DISAGREE lines must not push them out of view)
+for c in "$@"; do ./check $c --tier quick > /verif/target/try_seeded.out 2>&1; grep -E "^\[|^VIOLATION" /verif/target/try_seeded.out | cut -c1-260; grep -E "KNOWN|SPEC-FAIL|DISAGREE" /verif/target/try_seeded.out | cut -c1-260 | head -6; done
 git -C /repo checkout -- . ; git -C /repo status --short
